@@ -176,6 +176,7 @@ def _reduce_cs(p):
 def run(ctx):
     from ..shared import group_loop_rule as _group_loop_rule
 
+    ctx.attempt(load_accumulation_rule, ctx)
     ctx.attempt(_group_loop_rule, ctx, "R9.12", scope=lambda f, _s=("EasyFEA.Simulations._simu", "EasyFEA.Simulations._beam", "EasyFEA.FEM._mesh"): f.module.name.startswith(_s), min_instances=5)
     ctx.attempt(gauss_coordinates_order_rule, ctx)
     from ..shared import state_alias_rule as _state_alias_rule
@@ -195,18 +196,21 @@ def run(ctx):
     t = Poly.var("thickness")
 
     # ---- R9.1
-    r1 = ctx.rule("R9.1", "dimension / thickness table: line -> (1, no thickness); surface -> 2-D: (1, x thickness) 3-D: (2, none); volume -> 2-D: (2, x thickness) 3-D: (3, none)", min_instances=6)
+    r1 = ctx.rule("R9.1", "dimension / thickness table: line -> (1, no thickness); surface -> 2-D: (1, x thickness) 3-D: (2, none); volume -> 2-D: (2, x thickness) 3-D: (3, none); a 2-D mesh lying in 3-D space follows the 2-D row", min_instances=9)
     expect = {
         ("add_lineLoad", 2): (1, 0), ("add_lineLoad", 3): (1, 0),
         ("add_surfLoad", 2): (1, 1), ("add_surfLoad", 3): (2, 0),
         ("add_volumeLoad", 2): (2, 1), ("add_volumeLoad", 3): (3, 0),
     }
     integ = {"_Simu__Bc_lineLoad": 1, "_Simu__Bc_surfload": 2, "_Simu__Bc_volumeload": 3}
-    for (mname, dim), (want_dim, want_t) in expect.items():
+    # a 2-D mesh need not lie in the plane z = 0 (a plate translated along z or tilted: thermal and weak-form simulations accept
+    # it): the table follows the dimension of the MESH, not that of the space it is embedded in
+    cases91 = [(mname, dim, dim, w) for (mname, dim), w in expect.items()] + [(mname, 2, 3, w) for (mname, dim), w in expect.items() if dim == 2]
+    for mname, dim, inDim, (want_dim, want_t) in cases91:
         f = simu.methods[mname]
         r1.instance(fn=f.qualname)
         cap = {}
-        obj = XObj(simu, dict(mesh=SimpleNamespace(dim=dim, inDim=dim), model=SimpleNamespace(thickness=t), problemType=Opaque("pt"), dim=dim))
+        obj = XObj(simu, dict(mesh=SimpleNamespace(dim=dim, inDim=inDim), model=SimpleNamespace(thickness=t), problemType=Opaque("pt"), dim=dim))
         a = obj.attrs
         a["_Simu__Bc_check_inputs"] = lambda *x, **k: True
         a["_Simu__Check_problemTypes"] = lambda *x, **k: None
@@ -217,7 +221,7 @@ def run(ctx):
         try:
             I.call_function(f, [Opaque("nodes"), [1], ["x"]], self_obj=obj)
         except XRaise as e:
-            r1.fail(f.qualname, f"dim{dim}", f.file, f.lineno, mname, f"mesh.dim = {dim}: {e}")
+            r1.fail(f.qualname, f"dim{dim}" + (f":inDim{inDim}" if inDim != dim else ""), f.file, f.lineno, mname, f"mesh.dim = {dim}, mesh.inDim = {inDim}: {e}")
             continue
         v = cap.get("vals")
         v = v.data[0] if isinstance(v, XArray) else v
@@ -225,9 +229,9 @@ def run(ctx):
         if isinstance(v, Poly):
             ok = is_zero(v - Poly.var(f"L{want_dim}") * (t**want_t))
         if ok:
-            r1.ok(f"{mname}, mesh.dim={dim}: integration dimension {want_dim}, thickness^{want_t}")
+            r1.ok(f"{mname}, mesh.dim={dim}, inDim={inDim}: integration dimension {want_dim}, thickness^{want_t}")
         else:
-            r1.fail(f.qualname, f"dim{dim}", f.file, f.lineno, mname, f"mesh.dim = {dim}: nodal values are {v!r}; expected the dimension-{want_dim} integral{' times the thickness (once)' if want_t else ' with no thickness factor'}")
+            r1.fail(f.qualname, f"dim{dim}" + (f":inDim{inDim}" if inDim != dim else ""), f.file, f.lineno, mname, f"mesh.dim = {dim}, mesh.inDim = {inDim}: nodal values are {v!r}; expected the dimension-{want_dim} integral{' times the thickness (once)' if want_t else ' with no thickness factor'}")
 
     # ---- R9.2 / R9.4 integrator on one symbolic element
     r2 = ctx.rule("R9.2", "integrator: values[n, u] = sum_p wJ_p f_p N_pn (interpolated density for nodal arrays), aligned with dof(node, u); mass quadrature; elements selected exclusively", min_instances=4)
@@ -643,3 +647,41 @@ def load_quadrature_rule(ctx, rid="R9.17"):
             r.fail(f"{rule.func.qualname}[nPg={n}]", f"load-rule:{e}", rule.func.file, rule.func.lineno, f"Gauss.{rule.func.name}({n})", f"{e} loads are integrated with the {n}-point {shape} rule, documented exact to degree {want}, but monomial exponents {bad} are integrated with error {float(err):.3e} (exact only to degree {d}): the resultant / moment of a polynomial density of that degree is wrong")
         else:
             r.ok(f"{e}: mass rule {shape}/{n} exact to degree {d}" + (f" >= documented {want}" if want is not None else ""))
+
+
+def load_accumulation_rule(ctx, rid="R9.19"):
+    """'The nodal forces produced by a ... load sum to the analytical integral of the load density': loads are cumulative -
+    a load entered in two equal increments (own weight in two halves, a pressure raised in two equal steps, the same point
+    force applied twice) is twice the load.  The registration point of every Neumann load, `_Simu._Bc_Add_Neumann`, and
+    the two gatherers the solver reads (`Bc_dofs_Neumann`, `Bc_values_Neumann`) are interpreted with the repository's own
+    BoundaryCondition: after registering c1, c1 again (identical nodes, dofs, values, description) and c2, the gathered
+    (dof, value) pairs are those of all three conditions, in order."""
+    from ..xeval import Sink
+
+    repo = ctx.repo
+    simu = repo.cls(SIMU)
+    bc = repo.cls("EasyFEA.FEM._boundary_conditions.BoundaryCondition")
+    fA = simu.methods["_Bc_Add_Neumann"]
+    r = ctx.rule(rid, "Neumann conditions accumulate: registering the same load twice (and another one) makes the solver see every registered (dof, value) pair, identical conditions included", min_instances=1)
+    r.instance(fn=fA.qualname)
+    I = Interp(repo, extra_builtins={"Tic": lambda *a, **k: Sink()})
+    I.constructible = {bc.qualname}
+    obj = XObj(simu, {"_Simu__Bc_Neumann": [], "_Check_dofs": lambda *a, **k: None, "_verbosity": False, "problemType": "pt"})
+    g1, g2 = [Poly.var("g1a"), Poly.var("g1b")], [Poly.var("g2a")]
+    conds = [([4, 7], [8, 14], g1, "load"), ([4, 7], [8, 14], g1, "load"), ([9], [18], g2, "load")]
+    try:
+        for nodes, dofs, vals, desc in conds:
+            I.call_function(fA, ["pt", XArray((len(nodes),), nodes, "i"), XArray((len(vals),), list(vals)), XArray((len(dofs),), dofs, "i"), ["x"], desc], self_obj=obj)
+        gd = XArray.from_nested(I.call_function(simu.methods["Bc_dofs_Neumann"], ["pt"], self_obj=obj))
+        gv = XArray.from_nested(I.call_function(simu.methods["Bc_values_Neumann"], ["pt"], self_obj=obj))
+    except XRaise as e:
+        r.fail(fA.qualname, "accumulate", fA.file, fA.lineno, "_Simu._Bc_Add_Neumann", f"raises {e}")
+        return
+    want_d = [d for _n, ds, _v, _ in conds for d in ds]
+    want_v = [v for _n, _d, vs, _ in conds for v in vs]
+    got_d = [int(x) for x in gd.data]
+    ok = got_d == want_d and len(gv.data) == len(want_v) and all(is_zero(Poly.of(a) - b) for a, b in zip(gv.data, want_v))
+    if ok:
+        r.ok("c1, c1, c2 registered: the solver gathers all three (the repeated load counts twice)")
+    else:
+        r.fail(fA.qualname, "accumulate", fA.file, fA.lineno, "_Simu._Bc_Add_Neumann", f"after registering the same load twice and a third one, the gathered dofs are {got_d} with values {[str(x) for x in gv.data]}; every registered condition contributes: {want_d} / {[str(x) for x in want_v]}: a load applied in equal increments is counted once - its resultant is not the integral of the applied density")
